@@ -1,6 +1,7 @@
 import Gmx.Model.Vault
 import Gmx.Gen.C22Sites
 import Gmx.Model.Life
+import Gmx.Lemmas.Life2
 /-!
 # C22 — market vaults stay solvent after every instruction
 -/
@@ -436,5 +437,54 @@ theorem record_sites_known :
 example : (⟨false, 100, 50, 5, 0, 1, 1, 10, 0, 0, 20, 106, 51⟩ : VMarket).validate 0 0 = some true := by decide
 example : (⟨false, 100, 50, 5, 0, 1, 1, 10, 0, 0, 20, 105, 51⟩ : VMarket).validate 0 0 = some false := by decide
 example : (⟨true, 51, 50, 0, 0, 0, 0, 0, 0, 0, 0, 101, 0⟩ : VMarket).validate 1 0 = some false := by decide
+
+/-! ### ===== Stage 3: solvency over interleaved deposits, withdrawals and swap orders (`Gmx.Life2`) =====
+Tied to the real `gmsol_store::entry` by `harness/h_store/src/bin/life2.rs` (engine `l2`). -/
+section Life2
+open Gmx.Life2
+
+/-- (c) **Solvency after every step of every history**: recorded balances never exceed the vault balances and
+burns never exceed mints (so `supply = minted − burned` is exact), from an empty market, for any interleaving of
+creations, executions (completed or soft-failed), closes, clock ticks and price updates of any users. -/
+theorem l2_recorded_le_vault (l sh : Nat) (now : Int) (ops : List Life2.Op) :
+    (Life2.run (Life2.init l sh now) ops).1.recLong ≤ (Life2.run (Life2.init l sh now) ops).1.vaultLong ∧
+    (Life2.run (Life2.init l sh now) ops).1.recShort ≤ (Life2.run (Life2.init l sh now) ops).1.vaultShort ∧
+    (Life2.run (Life2.init l sh now) ops).1.burned ≤ (Life2.run (Life2.init l sh now) ops).1.minted ∧
+    Life2.supply (Life2.run (Life2.init l sh now) ops).1 + (Life2.run (Life2.init l sh now) ops).1.burned
+      = (Life2.run (Life2.init l sh now) ops).1.minted := by
+  have h := solvent_run (solvent_init l sh now) ops
+  refine ⟨h.long, h.short, h.supply, ?_⟩
+  have := h.supply
+  unfold Life2.supply
+  omega
+
+/-- … and the invariant is inductive from ANY solvent state (one transaction). -/
+theorem l2_solvent_step {s : Life2.St} (h : Life2.Solvent s) (op : Life2.Op) : Life2.Solvent (Life2.step s op).1 :=
+  solvent_step h op
+
+/-- how the supply and the recorded/vault pair move on a completed execution: a deposit mints `x` and adds its
+escrow to both vault and record; a withdrawal burns exactly its escrowed market tokens and removes the paid
+amounts from both; a swap adds the input to and removes the output from both. -/
+theorem l2_complete_deposit {s s' : Life2.St} {u i x y : Nat} {act : Life2.Act}
+    (h : Life2.complete s u 0 i act x y = some s') :
+    s'.minted = s.minted + x ∧ s'.burned = s.burned ∧
+    s'.vaultLong = s.vaultLong + act.escLong ∧ s'.recLong = s.recLong + act.escLong ∧
+    s'.vaultShort = s.vaultShort + act.escShort ∧ s'.recShort = s.recShort + act.escShort := by
+  simp [Life2.complete] at h; subst h; simp [Life2.setAct]
+
+theorem l2_complete_withdrawal {s s' : Life2.St} {u i x y : Nat} {act : Life2.Act}
+    (h : Life2.complete s u 1 i act x y = some s') :
+    s'.burned = s.burned + act.escMt ∧ s'.minted = s.minted ∧ s'.burned ≤ s'.minted ∧
+    s'.vaultLong = s.vaultLong - x ∧ s'.recLong = s.recLong - x ∧ x ≤ s.recLong ∧
+    s'.vaultShort = s.vaultShort - y ∧ s'.recShort = s.recShort - y ∧ y ≤ s.recShort := by
+  simp [Life2.complete] at h
+  obtain ⟨⟨h1, h2, h3⟩, rfl⟩ := h
+  simp [Life2.setAct]; omega
+
+example : (Life2.run (Life2.init 10000 5000 100)
+    [.create 0 0 0 2000 300 false 500000, .price 0, .exec .keeper 0 0 0 0 true false 600 0, .close (.user 0) 0 0 0,
+     .create 0 1 0 100 0 false 0, .exec .keeper 0 1 0 0 true false 333 50]).1.recLong = 1667 := by decide
+
+end Life2
 
 end Gmx.C22
